@@ -344,7 +344,7 @@ func runC11(c *ctx) error {
 		}
 	}
 	perms = append(perms, map[string]string{"": "a", "os": "a", "arch": "b"}, map[string]string{"os": "", "arch": "a"}, map[string]string{"os": ""})
-	skips := []any{nil, false, true, "yes", 0, ""}
+	skips := []any{nil, false, true, "yes", 0, "", "false", "f", "F", "0", "False", "FALSE", "no", "true", 1, []any{}}
 	adjsFor := func(setup map[string][]string) []c11Adj {
 		var out []c11Adj
 		dims := sortedKeysS(setup)
@@ -463,7 +463,7 @@ func runC11(c *ctx) error {
 		if i%10 == 5 {
 			// boundary shift: two tuples whose values concatenate to the same text with any one-character
 			// separator; one is an adjustment (skipped or not), the other a setup combination or nothing
-			sep := core.Pick(rng, []string{",", "|", " ", "/", ":"})
+			sep := core.Pick(rng, []string{",", "|", " ", "/", ":", "\x00", "\x1f", "\t", "-", "=", ";"})
 			d1, d2 := "arch", "os"
 			setup = map[string][]string{d1: {"x" + sep + "y", "x"}, d2: {"z", "y" + sep + "z"}}
 			if rng.Bool() {
